@@ -1,57 +1,75 @@
 """C04 — only cacheable responses are stored, and never served past their lifetime."""
+import json
+import os
+
 from kv import Case, xn, xb, xl, xlist, xbool, xparse, xtext
 import pipe
 
 ID = "C04"
 MODULE = "C04"
-IMPORTS = "Bytes RustInt Range CacheControl Cache CacheProofs Cache04Proofs"
+IMPORTS = "Bytes RustInt Range CacheControl Cache CacheProofs Cache04Proofs Fixture CacheX CacheXProofs CacheControlProofs CacheXWitness"
 PROFILES = ("dev",)
 PER_SHARD = 3          # scenarios contain real sleeps: spread them over all cores
 KERNEL_SAMPLE = 30
-THEOREMS = [
-    ("status_filter_exact", "forall s, status_filter_drop s = true <-> (100 <= s <= 199) \\/ s = 304 \\/ (400 <= s <= 499 /\\ s <> 404 /\\ s <> 410)"),
-    ("admission_exact", "forall m f, may_store true m f = true <-> f_spref f <> SP_NONE /\\ get_or_head m = true /\\ "
-     "status_filter_drop (f_status f) = false /\\ N.of_nat (length (f_body f)) < size_limit /\\ kvarn_none f = false"),
-    ("kvarn_cache_control_none_refused", None),
-    ("miss_stores_iff_admitted", None),
-    ("never_stale", None),
-    ("variant_push_keeps_expiry", None),
-    ("cleared_is_miss", None),
-    ("cleared_all_is_miss", None),
-    ("not_found_is_recomputed", None),
-    ("unsafe_or_non_get_is_recomputed", None),
-    ("computed_once_while_fresh", None),
-    ("not_modified_rule", None),
-    ("not_modified_arithmetic", "forall t created, ims_fresh t created = true <-> "
-     "(Z.of_N (created / 1000) <= t)%Z \\/ (t = Z.of_N (created / 1000) - 1)%Z /\\ created mod 1000 = 0"),
-    ("lifetime_equation", None),
-]
-RULE = ("kvarn::handle_cache in process with handlers whose body carries their invocation number, against the Coq cache model "
-        "(correspondence) and against expectations derived from the property text (oracle: must-recompute / must-not-recompute / "
-        "status per request). (A) admission product: server preference x method x status x cache-control form x body size (incl. "
-        "4 MiB-1 / 4 MiB) with three equal requests; (B) lifetimes: max-age=1 / kvarn-cache-control 1s / no-store,max-age=1 with real "
-        "sleeps (hit at 0.4 s, recompute at 1.6 s; margins >= 0.4 s), clears of the page / host in between; (C) If-Modified-Since "
-        "with the scenario start aligned to xx.5 s wall clock, dates start+k for k in -5..5 and garbage; (D) vary + max-age: a second "
-        "variant must not extend the first one's lifetime. distinct_nontrivial = distinct scenarios whose model run contains a hit or a 304")
+MAX_NOT_EXECUTED = 0   # no case may silently lose its implementation or model side (timing trouble is counted separately)
+# every statement is pinned: `Check (name : statement)` on each run (driver/props/pins/C04.json, printed by Coq itself)
+_PINS = json.load(open(os.path.join(os.path.dirname(os.path.abspath(__file__)), "pins", "C04.json")))
+THEOREMS = [(n, _PINS[n]) for n in (
+    "status_filter_exact", "admission_exact", "stream_never_stored", "kvarn_cache_control_none_refused", "miss_stores_iff_admitted",
+    "stored_variants_admitted", "uncacheable_always_recomputed", "never_stale", "never_served_past_own_lifetime",
+    "lifetime_equation", "lifetime_max_age_among", "lifetime_kvarn_unit",
+    "cleared_is_miss", "cleared_page_is_recomputed", "cleared_all_is_miss", "not_found_is_recomputed", "unsafe_or_non_get_is_recomputed",
+    "computed_once_history", "not_modified_rule", "not_modified_arithmetic",
+    "vary_push_admission_refuted", "variant_lifetime_refuted", "clear_unprimed_refuted", "ims_unstored_variant_refuted")]
+RULE = ("kvarn::handle_cache in process (component pipex.run, harness/src/c04x.rs) with handlers whose body carries their invocation number, "
+        "against the Coq cache model Model/CacheX.v (correspondence) and against expectations derived from the property text (oracle: "
+        "must-recompute / must-not-recompute / status / stream per request). (A) admission product: server preference x method x status "
+        "(every boundary of the filter: 100,101,199,200,204,301,303,304,305,399,400,403,404,405,409,410,411,418,499,500) x cache-control form x "
+        "body size (incl. 4 MiB-1 / 4 MiB as a NUMBER of filler bytes, never materialised on the model side) x streamed / not x status filter "
+        "(default, cache-all, only-200), three equal requests + random methods; (B) vary admission: a page with a vary rule whose second variant "
+        "is not admissible (no server caching, 400, kvarn-cache-control none, 4 MiB, streamed) or shorter-lived; (C) lifetimes 2 s "
+        "(max-age, kvarn N s, no-store+max-age, max-age among directives) probed at 0.5 s and 2.8 s (and max-age=0), a variant pushed 1.4 s into a 2 s "
+        "lifetime must not restart it; every request timed by the harness: a "
+        "scenario whose request started or ended more than `slack` late is run again (3 attempts) and then counted as not executed (never "
+        "a violation); clears of the page / host / the page under its redirected URI / a page with BOTH its keys occupied (path?query and path) on "
+        "each spelling; (D) If-Modified-Since with the scenario start aligned "
+        "to xx.3 s wall clock; (E) kvarn_utils::parse::CacheControl called directly (cc.parse) on bounded-exhaustive and random header "
+        "strings, compared with the byte-level model and an independent reference parser in Python. "
+        "distinct_nontrivial = distinct scenarios whose model run contains a hit or a 304")
 ASSUMPTIONS = [
-    "times are nominal (sum of sleeps); every timing decision has a margin >= 0.4 s; the wall clock is the machine's",
-    "streams (Prepare extensions that capture the connection) are not in the fixture menu: the model's stream=false case",
+    "times are nominal (sum of sleeps) on the model side; the harness measures every request and refuses (retries, then reports not-executed) "
+    "a scenario in which a request started or ended more than 450 ms late; every timing decision has a margin >= 0.35 s beyond that slack "
+    "(lifetime 2 s: 'fresh' probed at 0.5 s, 'expired' at 2.8 s / 3.0 s / 3.2 s)",
     "moka's eviction under capacity pressure is not modelled (<= 16 keys per run, capacity 1024)",
     "If-Modified-Since dates are generated relative to the aligned scenario start; the `time` crate's HTTP-date parser is abstracted to its result",
     "ServerCachePreference::MaxAge(d) ignores d (observation, outside the property's wording)",
+    "sequential histories; the second lookup inside handle_vary_missing is collapsed (interleavings are C05's subject)",
+    "kvarn-cache-control: N<unit> with N*unit >= 2^32 panics in a build with overflow checks (C02 known class kvarn-cache-control-overflow); "
+    "the pipeline generators stay below, the direct component cc.parse compares the panic outcome too",
 ]
-TRUSTED = ["modelled: as C03, plus utils/src/parse.rs CacheControl::{from_cache_control, from_kvarn_cache_control, from_headers, store, as_freshness} "
-           "byte for byte (Model/CacheControl.v)"]
-LEVEL_TEXT = ("Coq theorems over the cache model for all states/requests/times: admission is exactly the property's conjunction (status filter list, "
-              "GET/HEAD, declared preference, < 4 MiB, not kvarn-cache-control: none); whatever a lookup returns is within its lifetime; max-age=N "
-              "parses to N seconds; variant pushes keep the absolute expiry; a clear makes the page a miss; misses / non-GET / unsafe requests "
-              "always recompute; a stored response is served without recomputation by the next equal request while fresh; 304 iff a usable "
-              "entry exists and date >= stored second (corner case spelled out). Tied to /repo by the differential run with counting handlers and real waits.")
+TRUSTED = ["modelled (Model/CacheX.v): src/lib.rs handle_cache + handle_cache_helpers {get_response's key, get_cache, maybe_cache, handle_vary_missing}, "
+           "src/comprash.rs UriKey/PathQuery/MokaCache::{get_cache_item,insert,insert_cache_item}/server_cache_lifetime/ServerCachePreference::cache, "
+           "src/host.rs clear_page/clear_response_caches/status filter, extensions.rs uri_redirect_target; utils/src/parse.rs CacheControl::"
+           "{from_cache_control, from_kvarn_cache_control, from_headers, store, as_freshness} byte for byte (Model/CacheControl.v); handlers, vary rules, "
+           "override Prime and status filters are the fixture menu (harness/src/c00pipe.rs + c04x.rs = Model/Fixture.v + CacheX.v)"]
+LEVEL_TEXT = ("Coq theorems over the full cache model (streams, body size as a number, the host's status filter, override URIs, vary variants) for ALL "
+              "histories of requests, clears and waits: every variant the cache ever holds passed the admission test, which is exactly the property's "
+              "conjunction (not streamed, declared preference, status filter = the property's list, GET/HEAD, < 4 MiB, not kvarn-cache-control: none) "
+              "[stored_variants_admitted, admission_exact, status_filter_exact]; under the handler contract a non-admissible response is recomputed by every "
+              "request — with or without If-Modified-Since — of every history [uncacheable_always_recomputed]; a variant found by a lookup was stored at most its OWN lifetime ago, also among "
+              "longer-lived variants of the same page [never_served_past_own_lifetime]; max-age=N alone or among other directives and kvarn-cache-control "
+              "N<unit> for every N, unit give N(*unit) seconds [lifetime_*]; a clear of the page (as given or as the default redirect rewrites it) or of "
+              "the host makes the next request recompute; misses / non-GET / unsafe requests always recompute; after a response was stored, every history "
+              "of other requests, waits and clears of other keys leaves the same request answered without recomputation until the deadline "
+              "[computed_once_history]; 304 iff a usable entry exists, holds the variant the request selects and date >= stored second (corner case spelled out). Four "
+              "defects of the code before its repair are proved as witnesses on the faithful old model (vary_push_admission_refuted, "
+              "variant_lifetime_refuted, clear_unprimed_refuted, ims_unstored_variant_refuted). Tied to the repo worktree by the differential run with counting handlers and timed histories.")
 LEVEL_NOTE = ("Trusted: Coq kernel; extraction (sample re-checked in-kernel); transcription of handle_cache/CacheControl validated differentially; "
-              "real-time behaviour exercised only with ~1 s lifetimes. No axioms.")
-TECHNIQUE = "Coq proof (lemmas over all cache states and times) + differential correspondence with counting handlers and timed histories"
+              "real-time behaviour exercised only with 2 s lifetimes; computed_once_history assumes (named hypotheses) that error responses are not "
+              "admissible and that the handler's responses for the path agree on query-matters-ness and outlive the deadline. No axioms.")
+TECHNIQUE = "Coq proof (invariants over all histories of the cache model) + differential correspondence with counting handlers and timed histories"
 
-REPORT = [b"?last-modified"]
+REPORT = [b"vary"]      # last-modified is the cache's own stamp: not part of the property, not pinned
 CC_FORMS = {
     "none": [],
     "max-age=1000": [(b"cache-control", b"max-age=1000")],
@@ -66,74 +84,188 @@ CC_FORMS = {
     "garbage": [(b"cache-control", b"max-age=abc")],
     "kvarn-garbage": [(b"kvarn-cache-control", b"soon")],
     "two-max-age": [(b"cache-control", b"max-age=5, max-age=6")],
+    "kvarn-none+max-age": [(b"kvarn-cache-control", b"none"), (b"cache-control", b"max-age=1000")],
 }
-STATUSES = [200, 200, 204, 301, 304, 400, 403, 404, 405, 410, 418, 500]
+# every boundary of the default filter (400..=403 | 405..=409 | 411..=499 | 100..=199 | 304) and its neighbours
+STATUSES = [200, 200, 200, 100, 101, 103, 199, 204, 301, 303, 304, 305, 399, 400, 403, 404, 405, 409, 410, 411, 418, 451, 499, 500, 503]
 FOUR_MIB = 4 * 1024 * 1024
+SLACK = 450
 
 
-def cacheable(spref, method, status, size, cc):
+def status_dropped(status, sfilter):
+    if sfilter == 1:
+        return False
+    if sfilter == 2:
+        return status != 200
+    return 100 <= status <= 199 or status == 304 or (400 <= status <= 499 and status not in (404, 410))
+
+
+def cacheable(spref, method, status, size, cc, stream=0, sfilter=0):
     """the property's text"""
     if spref == 0 or method not in (b"GET", b"HEAD"):
         return False
-    if 100 <= status <= 199 or status == 304 or (400 <= status <= 499 and status not in (404, 410)):
+    if status_dropped(status, sfilter):
+        return False
+    if stream:
         return False
     if size >= FOUR_MIB:
         return False
-    if cc in ("kvarn-none", "kvarn-none-sp"):
+    if cc in ("kvarn-none", "kvarn-none-sp", "kvarn-none+max-age"):
         return False
     return True
 
 
-def case(c, ops, kind, expect):
-    return Case("pipe.run", pipe.scenario(c, ops), None, {"kind": kind, "expect": expect})
+def case(c, ops, kind, expect, comp="pipex.run"):
+    return Case(comp, pipe.scenario(c, ops), None, {"kind": kind, "expect": expect})
 
 
-def base_cfg(hs, **kw):
-    return pipe.cfg(cache=True, handlers=hs, report=[xb(r) for r in REPORT], **kw)
+def base_cfg(hs=(), **kw):
+    return pipe.cfg(cache=True, handlers=list(hs), report=[xb(r) for r in REPORT], **kw)
 
 
-def admission(rng, spref, method, status, size, cc):
-    pad = b"x" * max(0, size - 3)
-    body = pad + b"n="          # the counter adds one digit -> total size = size for counts < 10
+def admission(rng, spref, method, status, size, cc, stream=0, sfilter=0):
+    body = b"n="           # the counter adds one digit: total size = pad + 3 for counts < 10
+    pad = max(0, size - 3)
     h = pipe.H(b"/c", kind=2, status=status, body=body, headers=CC_FORMS[cc], spref=spref, maxage=5, cpref=0, compress=False)
+    xh = pipe.XH(b"/c", b"", [(b"", h, pad, stream)])
     methods = [method] * 3 + ([] if size > 100000 else [rng.choice([b"GET", b"HEAD", b"OPTIONS", b"POST", b"TRACE", b"PUT"]) for _ in range(4)])
     ops = [pipe.req(b"/c", method=m) for m in methods]
     expect = []
     stored = False
     for m in methods:
-        ok = cacheable(spref, m, status, size, cc)
+        ok = cacheable(spref, m, status, pad + 3, cc, stream, sfilter)
         if m in (b"GET", b"HEAD") and stored:
-            expect.append(("hit", status))
+            expect.append(("hit", status, 0))
         else:
-            expect.append(("compute", status))
+            expect.append(("compute", status, stream))
             stored = stored or ok
-    ok = cacheable(spref, method, status, size, cc)
-    return case(base_cfg([h]), ops, "admission/" + ("cacheable" if ok else "not-cacheable"), expect)
+    ok = cacheable(spref, method, status, pad + 3, cc, stream, sfilter)
+    kw = {"sfilter": sfilter} if sfilter else {}
+    return case(base_cfg(xhandlers=[xh], **kw), ops, "admission/" + ("cacheable" if ok else "not-cacheable") +
+                ("/stream" if stream else "") + ("/4MiB" if size > 100000 else "") + ("/filter%d" % sfilter if sfilter else ""), expect)
 
 
-def lifetimes(rng):
+# ---- (B) vary: the second variant is admitted on its own terms ------------------------------------------
+VARY = [pipe.vary_rule(b"/v", [(b"x-v", 0, b"d")])]
+SECOND = {
+    "cacheable": dict(),
+    "spref-none": dict(spref=0),
+    "status-400": dict(status=400),
+    "status-101": dict(status=101),
+    "status-500": dict(status=500),          # 5xx is cacheable under the default filter
+    "kvarn-none": dict(headers=[(b"kvarn-cache-control", b"none")]),
+    "4MiB": dict(pad=FOUR_MIB - 3),
+    "4MiB-1": dict(pad=FOUR_MIB - 4),
+    "stream": dict(stream=1),
+    "stream-len": dict(stream=2),
+}
+
+
+def vary_admission(rng, name):
+    kw = dict(SECOND[name])
+    pad, stream = kw.pop("pad", 0), kw.pop("stream", 0)
+    A = pipe.H(b"/v", kind=2, body=b"a=", spref=2, cpref=0, compress=False)
+    Bh = pipe.H(b"/v", kind=2, body=b"b=", cpref=0, compress=False, **{"spref": 2, **kw})
+    xh = pipe.XH(b"/v", b"x-v", [(b"a", A, 0, 0), (b"b", Bh, pad, stream)])
+    c = base_cfg(xhandlers=[xh], vary=VARY)
+    ra = pipe.req(b"/v", headers=[(b"x-v", b"a")])
+    rb = pipe.req(b"/v", headers=[(b"x-v", b"b")], method=rng.choice([b"GET", b"HEAD"]))
+    ok = cacheable(kw.get("spref", 2), b"GET", kw.get("status", 200), pad + 3, "kvarn-none" if "headers" in kw else "none", stream)
+    st = kw.get("status", 200)
+    ops = [ra, rb, rb, ra, rb]
+    exp = [("compute", 200, 0), ("compute", st, stream), ("hit" if ok else "compute", st, 0 if ok else stream), ("hit", 200, 0),
+           ("hit" if ok else "compute", st, 0 if ok else stream)]
+    return case(c, ops, "vary-admission/" + name, exp)
+
+
+def vary_lifetime(rng):
+    """variant a never expires, variant b lives 2 s: b must be recomputed after 3.2 s although a is still there"""
     out = []
-    for name, hdr in [("max-age=1", [(b"cache-control", b"max-age=1")]), ("kvarn-1s", [(b"kvarn-cache-control", b"1s")]),
-                      ("no-store,max-age=1", [(b"cache-control", b"no-store, max-age=1")]),
-                      ("max-age=2", [(b"cache-control", b"max-age=2")])]:
-        L = 2000 if name == "max-age=2" else 1000
-        h = pipe.H(b"/c", kind=2, body=b"n=", headers=hdr, spref=rng.choice([1, 2]), cpref=0)
-        ops = [pipe.req(b"/c"), pipe.wait(400), pipe.req(b"/c"), pipe.wait(L - 400 + 600), pipe.req(b"/c"), pipe.req(b"/c", method=b"HEAD")]
-        out.append(case(base_cfg([h]), ops, "lifetime/" + name, [("compute", 200), None, ("hit", 200), None, ("compute", 200), ("hit", 200)]))
-    # clears
-    h = pipe.H(b"/c", kind=2, body=b"n=", spref=2, cpref=0)
-    h2 = pipe.H(b"/d", kind=2, body=b"m=", spref=1, cpref=0)
-    ops = [pipe.req(b"/c"), pipe.req(b"/d?x=1"), pipe.req(b"/c"), pipe.clear_page(b"/c"), pipe.req(b"/c"), pipe.req(b"/d?x=1"),
-           pipe.clear_page(b"/d?x=1"), pipe.req(b"/d?x=1"), pipe.req(b"/c"), pipe.clear_all(), pipe.req(b"/c"), pipe.req(b"/d?x=1")]
-    exp = [("compute", 200), ("compute", 200), ("hit", 200), None, ("compute", 200), ("hit", 200), None, ("compute", 200), ("hit", 200),
-           None, ("compute", 200), ("compute", 200)]
-    out.append(case(base_cfg([h, h2]), ops, "clear", exp))
-    # clearing the page with another query also clears the Full entry (stored under the bare path)
-    ops = [pipe.req(b"/c?a=1"), pipe.clear_page(b"/c?zzz"), pipe.req(b"/c?a=1"), pipe.req(b"/d?x=1"), pipe.clear_page(b"/d?x=2"), pipe.req(b"/d?x=1")]
-    out.append(case(base_cfg([h, h2]), ops, "clear", [("compute", 200), None, ("compute", 200), ("compute", 200), None, ("hit", 200)]))
+    for first, second in (([], [(b"cache-control", b"max-age=2")]), ([(b"cache-control", b"max-age=1000")], [(b"kvarn-cache-control", b"2s")]),
+                          ([(b"cache-control", b"max-age=2")], [])):
+        A = pipe.H(b"/v", kind=2, body=b"a=", spref=2, cpref=0, compress=False, headers=first)
+        Bh = pipe.H(b"/v", kind=2, body=b"b=", spref=2, cpref=0, compress=False, headers=second)
+        xh = pipe.XH(b"/v", b"x-v", [(b"a", A, 0, 0), (b"b", Bh, 0, 0)])
+        c = base_cfg(xhandlers=[xh], vary=VARY, slack=SLACK)
+        ra = pipe.req(b"/v", headers=[(b"x-v", b"a")])
+        rb = pipe.req(b"/v", headers=[(b"x-v", b"b")])
+        ops = [ra, rb, pipe.wait(500), rb, ra, pipe.wait(2700), rb, ra]
+        # whichever variant carries the 2 s lifetime must be recomputed at 3.2 s; the other one may go with it (one lifetime per entry)
+        exp = [("compute", 200, 0), ("compute", 200, 0), None, ("hit", 200, 0), ("hit", 200, 0), None,
+               ("compute", 200, 0) if second else None, ("compute", 200, 0) if first and not second else None]
+        out.append(case(c, ops, "vary-lifetime", exp))
+    # a variant pushed 1.4 s after the entry was stored must not restart the entry's 2 s lifetime
+    A = pipe.H(b"/v", kind=2, body=b"a=", spref=2, cpref=0, compress=False, headers=[(b"cache-control", b"max-age=2")])
+    Bh = pipe.H(b"/v", kind=2, body=b"b=", spref=2, cpref=0, compress=False)
+    xh = pipe.XH(b"/v", b"x-v", [(b"a", A, 0, 0), (b"b", Bh, 0, 0)])
+    ra = pipe.req(b"/v", headers=[(b"x-v", b"a")])
+    rb = pipe.req(b"/v", headers=[(b"x-v", b"b")])
+    ops = [ra, pipe.wait(1400), rb, ra, pipe.wait(1600), ra]
+    out.append(case(base_cfg(xhandlers=[xh], vary=VARY, slack=SLACK), ops, "vary-lifetime/restart",
+                    [("compute", 200, 0), None, ("compute", 200, 0), ("hit", 200, 0), None, ("compute", 200, 0)]))
     return out
 
 
+# ---- (C) lifetimes and clears ---------------------------------------------------------------------------
+def lifetimes(rng):
+    out = []
+    forms = [("max-age=2", [(b"cache-control", b"max-age=2")]), ("kvarn-2s", [(b"kvarn-cache-control", b"2s")]),
+             ("no-store,max-age=2", [(b"cache-control", b"no-store, max-age=2")]),
+             ("among", [(b"cache-control", b"public, max-age=2 ,immutable")]),
+             ("kvarn-2s+cc", [(b"kvarn-cache-control", b" 2s"), (b"cache-control", b"max-age=1000")])]
+    for name, hdr in forms:
+        h = pipe.H(b"/c", kind=2, body=b"n=", headers=hdr, spref=rng.choice([1, 2, 3]), cpref=0)
+        # probes: 0.5 s (fresh) and 2.8 s — less than a whole second past the lifetime, so that an expiry test in whole seconds shows
+        ops = [pipe.req(b"/c"), pipe.wait(500), pipe.req(b"/c"), pipe.wait(2300), pipe.req(b"/c"), pipe.req(b"/c", method=b"HEAD")]
+        out.append(case(base_cfg([h], slack=SLACK), ops, "lifetime/" + name,
+                        [("compute", 200, 0), None, ("hit", 200, 0), None, ("compute", 200, 0), ("hit", 200, 0)]))
+    # max-age=0 / 0s: stored, but never served later (any later instant is more than 0 s after it was stored)
+    for name, hdr in (("max-age=0", [(b"cache-control", b"max-age=0")]), ("kvarn-0s", [(b"kvarn-cache-control", b"0s")])):
+        h = pipe.H(b"/c", kind=2, body=b"n=", headers=hdr, spref=2, cpref=0)
+        ops = [pipe.req(b"/c"), pipe.wait(60), pipe.req(b"/c"), pipe.wait(60), pipe.req(b"/c", method=b"HEAD")]
+        out.append(case(base_cfg([h]), ops, "lifetime/" + name, [("compute", 200, 0), None, ("compute", 200, 0), None, ("compute", 200, 0)]))
+    return out
+
+
+def clears(rng):
+    out = []
+    h = pipe.H(b"/c", kind=2, body=b"n=", spref=2, cpref=0)
+    h2 = pipe.H(b"/d", kind=2, body=b"m=", spref=1, cpref=0)
+    C, H_ = ("compute", 200, 0), ("hit", 200, 0)
+    ops = [pipe.req(b"/c"), pipe.req(b"/d?x=1"), pipe.req(b"/c"), pipe.clear_page(b"/c"), pipe.req(b"/c"), pipe.req(b"/d?x=1"),
+           pipe.clear_page(b"/d?x=1"), pipe.req(b"/d?x=1"), pipe.req(b"/c"), pipe.clear_all(), pipe.req(b"/c"), pipe.req(b"/d?x=1")]
+    out.append(case(base_cfg([h, h2]), ops, "clear", [C, C, H_, None, C, H_, None, C, H_, None, C, C]))
+    # clearing the page with another query also clears the Full entry (stored under the bare path)
+    ops = [pipe.req(b"/c?a=1"), pipe.clear_page(b"/c?zzz"), pipe.req(b"/c?a=1"), pipe.req(b"/d?x=1"), pipe.clear_page(b"/d?x=2"), pipe.req(b"/d?x=1")]
+    out.append(case(base_cfg([h, h2]), ops, "clear", [C, None, C, C, None, H_]))
+    # keys: a Full response is one item whatever the query, a QueryMatters response one item per query
+    ops = [pipe.req(b"/c?x=1"), pipe.req(b"/c?x=2"), pipe.req(b"/c"), pipe.req(b"/d?x=1"), pipe.req(b"/d?x=2"), pipe.req(b"/d?x=1"), pipe.req(b"/d"),
+           pipe.req(b"/d?x=2", method=b"HEAD")]
+    out.append(case(base_cfg([h, h2]), ops, "keys", [C, H_, H_, C, C, H_, C, H_]))
+    # both keys of one page occupied: the handler says QueryMatters when asked with a query (x-k: q) and Full for the bare form;
+    # requested with the query first and without it second. clear_page on either spelling: the next request for THAT spelling recomputes
+    # (a surviving path-only entry would answer /p?q too: every lookup falls back from the path?query key to the path key)
+    Q = pipe.H(b"/p", kind=2, body=b"q=", spref=1, cpref=0)
+    F = pipe.H(b"/p", kind=2, body=b"form=", spref=2, cpref=0)
+    xh = pipe.XH(b"/p", b"x-k", [(b"q", Q, 0, 0), (b"", F, 0, 0)])
+    rq = pipe.req(b"/p?q=a", headers=[(b"x-k", b"q")])
+    rf = pipe.req(b"/p")
+    for cleared, after in ((b"/p?q=a", [(rq, C), (rf, None), (rq, H_)]), (b"/p", [(rf, C), (rq, None), (rf, H_)]),
+                           (b"/p?other", [(rf, C), (rq, H_)])):
+        ops = [rq, rf, rq, rf, pipe.clear_page(cleared)] + [r for r, _ in after]
+        out.append(case(base_cfg(xhandlers=[xh]), ops, "clear/both-keys", [C, C, H_, H_, None] + [e for _, e in after]))
+    # the page as the client names it ("/a/", "/a.", "/") is stored under the redirected URI: clearing either name clears it
+    hs = [pipe.H(b"/a/index.html", kind=2, body=b"i=", spref=2, cpref=0), pipe.H(b"/a.html", kind=2, body=b"h=", spref=1, cpref=0),
+          pipe.H(b"/index.html", kind=2, body=b"r=", spref=2, cpref=0)]
+    for given, stored in ((b"/a/", b"/a/index.html"), (b"/a.", b"/a.html"), (b"/", b"/index.html")):
+        q = rng.choice([b"", b"?x=1"])
+        ops = [pipe.req(given + q), pipe.req(given + q), pipe.clear_page(given + q), pipe.req(given + q), pipe.req(stored + q),
+               pipe.clear_page(stored + q), pipe.req(given + q), pipe.clear_all(), pipe.req(given + q)]
+        out.append(case(base_cfg(hs, default_ext=True), ops, "clear/redirected", [C, H_, None, C, H_, None, C, None, C]))
+    return out
+
+
+# ---- (D) If-Modified-Since ---------------------------------------------------------------------------------
 def ims(rng):
     out = []
     h = pipe.H(b"/c", kind=2, body=b"n=", spref=2, cpref=0)
@@ -141,57 +273,224 @@ def ims(rng):
         base = pre_wait // 1000
         ks = [-5, -2, -1, 0, 1, 5]
         ops = [pipe.wait(pre_wait), pipe.req(b"/c")] if pre_wait else [pipe.req(b"/c")]
-        exp = [None, ("compute", 200)] if pre_wait else [("compute", 200)]
+        exp = [None, ("compute", 200, 0)] if pre_wait else [("compute", 200, 0)]
         for k in ks:
             t = base + k
             v = b"@T+%d" % t if t >= 0 else b"@T-%d" % (-t)
             ops.append(pipe.req(b"/c", method=rng.choice([b"GET", b"HEAD"]), headers=[(b"if-modified-since", v)]))
-            exp.append(("hit", 304 if k >= 0 else 200))
+            exp.append(("hit", 304 if k >= 0 else 200, 0))
         ops.append(pipe.req(b"/c", headers=[(b"if-modified-since", b"yesterday")]))
-        exp.append(("hit", 200))
+        exp.append(("hit", 200, 0))
         ops.append(pipe.req(b"/c", method=b"POST", headers=[(b"if-modified-since", b"@T+100")]))
-        exp.append(("compute", 200))
+        exp.append(("compute", 200, 0))
         ops.append(pipe.req(b"/other", headers=[(b"if-modified-since", b"@T+100")]))
-        exp.append((None, 404))
+        exp.append((None, 404, 0))
         for dis in (False, True):
-            e2 = [(e[0], 200 if (dis and e[1] == 304) else e[1]) if e else None for e in exp]
-            out.append(case(base_cfg([h], align=True, phase=500, disable_ims=dis), ops, "ims" + ("/disabled" if dis else ""), e2))
+            e2 = [(e[0], 200 if (dis and e[1] == 304) else e[1], e[2]) if e else None for e in exp]
+            out.append(case(base_cfg([h], align=True, phase=300, slack=400, disable_ims=dis), ops, "ims" + ("/disabled" if dis else ""), e2))
+    # a page with a vary rule: 304 only for the variant the entry holds; a variant that must not be stored (handler: no server caching)
+    # or was never requested is computed although the client's date is not older than the entry
+    A = pipe.H(b"/v", kind=2, body=b"a=", spref=2, cpref=0, compress=False)
+    Bn = pipe.H(b"/v", kind=2, body=b"b=", spref=0, cpref=0, compress=False)
+    Cc = pipe.H(b"/v", kind=2, body=b"c=", spref=2, cpref=0, compress=False)
+    xh = pipe.XH(b"/v", b"x-v", [(b"a", A, 0, 0), (b"b", Bn, 0, 0), (b"c", Cc, 0, 0)])
+    I = (b"if-modified-since", b"@T+0")
+    ops = [pipe.req(b"/v", headers=[(b"x-v", b"a")]), pipe.req(b"/v", headers=[(b"x-v", b"b")]), pipe.req(b"/v", headers=[(b"x-v", b"b"), I]),
+           pipe.req(b"/v", headers=[(b"x-v", b"c"), I]), pipe.req(b"/v", headers=[(b"x-v", b"c"), I]), pipe.req(b"/v", headers=[(b"x-v", b"a"), I])]
+    out.append(case(base_cfg(xhandlers=[xh], vary=VARY, align=True, phase=300, slack=400), ops, "ims/vary",
+                    [("compute", 200, 0), ("compute", 200, 0), ("compute", 200, 0), ("compute", 200, 0), ("hit", 304, 0), ("hit", 304, 0)]))
     return out
 
 
-def vary_lifetime(rng):
-    h = pipe.H(b"/v", kind=2, body=b"n=", headers=[(b"cache-control", b"max-age=1")], spref=2, cpref=0)
-    c = pipe.cfg(cache=True, handlers=[h], report=[xb(r) for r in REPORT], vary=[pipe.vary_rule(b"/v", [(b"x-v", 0, b"d")])])
-    A = [(b"x-v", b"a")]
-    Bv = [(b"x-v", b"b")]
-    ops = [pipe.req(b"/v", headers=A), pipe.wait(600), pipe.req(b"/v", headers=Bv), pipe.req(b"/v", headers=A), pipe.wait(900),
-           pipe.req(b"/v", headers=A), pipe.req(b"/v", headers=Bv)]
-    exp = [("compute", 200), None, ("compute", 200), ("hit", 200), None, ("compute", 200), None]
-    return [case(c, ops, "vary-lifetime", exp)]
+# ---- (E) CacheControl directly ---------------------------------------------------------------------------
+UNITS = {ord("s"): 1, ord("m"): 60, ord("h"): 3600, ord("d"): 86400}
+WS = b" \t"
+
+
+def ref_u32(s):
+    """Rust's u32::from_str"""
+    if s[:1] == b"+":
+        s = s[1:]
+    if not s or not all(48 <= c <= 57 for c in s):
+        return None
+    v = int(s)
+    return v if v <= 0xFFFFFFFF else None
+
+
+def ref_cache_control(v):
+    """reference reading of `cache-control` (independent of the Coq model): outcome ('ok', max_age, no_store) | ('err', n)"""
+    max_age, no_store = None, False
+    for seg in v.split(b","):
+        t = seg.strip(WS)
+        if t.startswith(b"no-store"):
+            no_store = True
+        elif t.startswith(b"max-age="):
+            if max_age is not None:
+                return ("err", 1)
+            a = ref_u32(t[8:])
+            if a is None:
+                return ("err", 2)
+            max_age = a
+    return ("ok", max_age, no_store)
+
+
+def ref_kvarn(v):
+    t = v.strip(WS)
+    if t == b"none":
+        return ("ok", None, True)
+    if t == b"full":
+        return ("ok", None, False)
+    if len(t) > 1 and 48 <= t[0] <= 57 and (65 <= t[-1] <= 90 or 97 <= t[-1] <= 122):
+        i = ref_u32(t[:-1])
+        if i is None:
+            return ("err", 2)
+        if t[-1] not in UNITS:
+            return ("err", 3)
+        if i * UNITS[t[-1]] > 0xFFFFFFFF:
+            return ("panic",)
+        return ("ok", i * UNITS[t[-1]], False)
+    return ("err", 4)
+
+
+def ref_text(o):
+    if o[0] == "panic":
+        return "(L (N 2))"
+    if o[0] == "err":
+        return "(L (N 1) (N %d))" % o[1]
+    _, ma, ns = o
+    store = (not ns) or (ma is not None and ma > 60)
+    opt = "(L)" if ma is None else "(L (N %d))" % ma
+    return "(L (N 0) (L %s (N %d) (N %d) %s))" % (opt, int(ns), int(store), opt)
+
+
+CC_TOKENS = [b"max-age=", b"no-store", b",", b" ", b"1", b"60", b"61", b"+", b"=", b"s-maxage=", b"public", b"\t", b"MAX-AGE=", b"0",
+             b"-1", b"x", b"4294967295", b"4294967296", b"max-age", b"no-storefront", b";", b"\"5\""]
+KV_TOKENS = [b"none", b"full", b" ", b"\t", b"1", b"0", b"60", b"s", b"m", b"h", b"d", b"w", b"S", b"+", b"-", b"49710", b"49711", b"4294967295",
+             b"4294967296", b"71582788", b"71582789", b"1193046", b"1193047", b"x", b"1.5"]
+
+
+def cc_case(which, v, kind):
+    if which == 2:
+        x = xl(xn(2), xlist([xl(xb(k), xb(val)) for k, val in v]))
+        hk = [val for k, val in v if k == b"kvarn-cache-control"]
+        hc = [val for k, val in v if k == b"cache-control"]
+        ref = ref_kvarn(hk[0]) if hk else (ref_cache_control(hc[0]) if hc else ("ok", None, False))
+    else:
+        x = xl(xn(which), xb(v))
+        ref = ref_cache_control(v) if which == 0 else ref_kvarn(v)
+    return Case("cc.parse", x, None, {"kind": kind, "ref": ref_text(ref)})
+
+
+def cc_direct(rng, tier):
+    out = []
+    # bounded-exhaustive: all words of <= 2 tokens (quick) / <= 3 tokens (thorough)
+    depth = 2 if tier == "quick" else 3
+    for which, toks in ((0, CC_TOKENS), (1, KV_TOKENS)):
+        words = [b""]
+        frontier = [b""]
+        for _ in range(depth):
+            frontier = [w + t for w in frontier for t in toks]
+            words += frontier
+        if tier == "quick":
+            words = words[:1 + len(toks)] + rng.sample(words[1 + len(toks):], min(350, len(words) - 1 - len(toks)))
+        elif len(words) > 9000:
+            words = words[:1 + len(toks) + len(toks) ** 2] + rng.sample(words[1 + len(toks) + len(toks) ** 2:], 6000)
+        out += [cc_case(which, w, "cc/exhaustive") for w in words]
+    n = 300 if tier == "quick" else 6000
+    for _ in range(n):
+        which = rng.choice([0, 0, 1, 2])
+        if which == 0:
+            segs = []
+            for _ in range(rng.randrange(1, 5)):
+                r = rng.random()
+                if r < 0.45:
+                    segs.append(rng.choice([b"", b" ", b"  ", b"\t"]) + b"max-age=" + rng.choice([b"", b"+", b"-", b" "]) +
+                                str(rng.choice([0, 1, 59, 60, 61, 3600, 2 ** 32 - 1, 2 ** 32, rng.randrange(0, 10 ** 6)])).encode() +
+                                rng.choice([b"", b"", b" ", b"s", b"\t"]))
+                elif r < 0.65:
+                    segs.append(rng.choice([b"no-store", b" no-store", b"no-store ", b"no-stores", b"No-Store", b"xno-store"]))
+                else:
+                    segs.append(rng.choice([b"public", b"private", b"immutable", b"s-maxage=5", b"max-age", b"must-revalidate", b"", b" ", b"max-age =5"]))
+            out.append(cc_case(0, rng.choice([b",", b", ", b" ,", b",,"]).join(segs), "cc/random"))
+        elif which == 1:
+            n_ = rng.choice([0, 1, 2, 59, 60, 61, 49710, 49711, 1193046, 1193047, 71582788, 71582789, 2 ** 32 - 1, 2 ** 32, rng.randrange(0, 10 ** 7)])
+            v = rng.choice([b"", b" ", b"\t "]) + rng.choice([b"", b"", b"+", b"0"]) + str(n_).encode() + rng.choice([b"s", b"m", b"h", b"d", b"w", b"S", b"", b"ms"]) + rng.choice([b"", b"", b" "])
+            out.append(cc_case(1, v, "cc/random"))
+        else:
+            hs = []
+            if rng.random() < 0.6:
+                hs.append((b"kvarn-cache-control", rng.choice([b"none", b" none ", b"full", b"1m", b"2h", b"61s", b"soon", b"", b"5", b"49711d"])))
+            if rng.random() < 0.8:
+                hs.append((b"cache-control", rng.choice([b"max-age=5", b"no-store", b"no-store, max-age=61", b"no-store, max-age=60", b"max-age=5, max-age=6",
+                                                         b"max-age=x", b"public", b""])))
+            if rng.random() < 0.2 and hs:
+                hs.append(hs[0][:1] + (b"max-age=9",))        # a second value of the same name: the first one counts
+            rng.shuffle(hs)
+            out.append(cc_case(2, hs, "cc/headers"))
+    return out
 
 
 def generate(rng, tier):
     cases = []
-    # corpus: the defects repaired in /repo
+    # corpus: the defects repaired in the repo worktree
     for cc in ("kvarn-none", "no-store,max-age=30", "kvarn-none-sp"):
         cases.append(admission(rng, 2, b"GET", 200, 10, cc))
-    cases += lifetimes(rng) + ims(rng) + vary_lifetime(rng)
-    n = 250 if tier == "quick" else 6000
-    for _ in range(n):
-        size = rng.choice([10, 10, 10, 49, 1000])
-        cases.append(admission(rng, rng.choice([0, 1, 2, 3]), rng.choice([b"GET", b"GET", b"HEAD", b"POST", b"OPTIONS"]),
-                               rng.choice(STATUSES), size, rng.choice(list(CC_FORMS))))
+    for name in SECOND:
+        cases.append(vary_admission(rng, name))
+    cases += vary_lifetime(rng) + lifetimes(rng) + clears(rng) + ims(rng)
+    # every status of the list once with a cacheable preference, streams once per kind, the size boundary
+    for st in sorted(set(STATUSES)):
+        cases.append(admission(rng, rng.choice([1, 2, 3]), b"GET", st, 10, "none"))
+    for stream in (1, 2):
+        for sp in (0, 2):
+            cases.append(admission(rng, sp, rng.choice([b"GET", b"HEAD"]), 200, rng.choice([0, 10]), "none", stream=stream))
     for size in (FOUR_MIB - 1, FOUR_MIB):
         for sp in ((2,) if tier == "quick" else (1, 2, 3)):
             cases.append(admission(rng, sp, b"GET", 200, size, "none"))
+    for sf in (1, 2):
+        for st in (200, 304, 403, 404, 500):
+            cases.append(admission(rng, 2, b"GET", st, 10, "none", sfilter=sf))
+    n = 230 if tier == "quick" else 6000
+    for _ in range(n):
+        size = rng.choice([3, 10, 10, 10, 49, 1000])
+        cases.append(admission(rng, rng.choice([0, 1, 2, 3]), rng.choice([b"GET", b"GET", b"HEAD", b"POST", b"OPTIONS"]),
+                               rng.choice(STATUSES), size, rng.choice(list(CC_FORMS)), stream=rng.choice([0, 0, 0, 0, 0, 1, 2]),
+                               sfilter=rng.choice([0, 0, 0, 0, 0, 0, 1, 2])))
+    cases += cc_direct(rng, tier)
     if tier == "thorough":
-        for _ in range(10):
-            cases += lifetimes(rng) + ims(rng) + vary_lifetime(rng)
+        for _ in range(8):
+            cases += vary_lifetime(rng) + lifetimes(rng) + clears(rng) + ims(rng)
+            for name in SECOND:
+                cases.append(vary_admission(rng, name))
     return cases
+
+
+def out_of_domain(c, impl):
+    # (L (N 93) over) = the scenario could not be run under its timing constraints (after 3 attempts)
+    return impl.startswith("(L (N 96)") or impl.startswith("(L (N 93)")
+
+
+def harness_trouble(cases, impl, model):
+    timed = [c for c in cases if c.comp == "pipex.run" and any(e[1][0] == ("B", b"slack") for e in c.x[1][0][1])]
+    bad = [c for c in timed if (impl.get(c.id) or "").startswith("(L (N 93)")]
+    if timed and len(bad) * 3 > len(timed):
+        return "%d of %d timed scenarios could not be run within their timing slack (machine too loaded): %s" % (
+            len(bad), len(timed), ", ".join("%s[%s]" % (c.id, c.meta.get("kind")) for c in bad[:12]))
+    return None
+
+
+def extra_coverage(cases, impl, model, spec):
+    bad = [c for c in cases if (impl.get(c.id) or "").startswith("(L (N 93)")]
+    return {"timing_not_executed": len(bad), "timing_not_executed_ids": [{"id": c.id, "kind": c.meta.get("kind"), "overshoot_ms": impl[c.id]} for c in bad][:30]}
 
 
 def extra_oracle(c, impl):
     """expectations from the property text, evaluated on the implementation's output"""
+    if c.comp == "cc.parse":
+        ref = c.meta.get("ref")
+        if ref is not None and impl != ref:
+            return "CacheControl gives %s, the reference reading of the header gives %s" % (impl, ref)
+        return None
     exp = c.meta.get("expect")
     if not exp:
         return None
@@ -202,9 +501,9 @@ def extra_oracle(c, impl):
     if len(out) != len(exp):
         return "wrong number of results"
     for i, (e, o) in enumerate(zip(exp, out)):
-        if e is None or o[0] != "L" or len(o[1]) != 6:
+        if e is None or o[0] != "L" or len(o[1]) != 7:
             continue
-        want, status = e
+        want, status, stream = e
         got_status = o[1][0][1]
         computed = len(o[1][5][1]) > 0
         if status is not None and got_status != status:
@@ -213,13 +512,17 @@ def extra_oracle(c, impl):
             return "op %d: served from the cache, the property demands recomputation" % i
         if want == "hit" and computed:
             return "op %d: recomputed, the property demands one computation per key while fresh" % i
+        if want is not None and o[1][6][1] != stream:
+            return "op %d: stream flag %d, expected %d (a streamed response must reach the client as a stream)" % (i, o[1][6][1], stream)
     return None
 
 
 def signature(c, m):
+    if c.comp != "pipex.run":
+        return None
     try:
         for x in xparse(m)[1]:
-            if x[0] == "L" and len(x[1]) == 6 and (x[1][0][1] == 304 or (x[1][5][1] == [] and x[1][0][1] != 404)):
+            if x[0] == "L" and len(x[1]) == 7 and (x[1][0][1] == 304 or (x[1][5][1] == [] and x[1][0][1] != 404)):
                 return "hit"
     except Exception:
         pass
@@ -228,6 +531,8 @@ def signature(c, m):
 
 def describe(c):
     import kv
+    if c.comp != "pipex.run":
+        return {"component": c.comp, "kind": c.meta.get("kind"), "input": kv.pretty(c.x, 200)}
     ops = c.x[1][1][1]
-    return {"component": c.comp, "kind": c.meta.get("kind"), "handlers": kv.pretty(c.x[1][0][1][1][1][1], 300),
+    return {"component": c.comp, "kind": c.meta.get("kind"), "config": kv.pretty(c.x[1][0], 400),
             "ops": [kv.pretty(o, 100) for o in ops][:14], "expect": c.meta.get("expect")}
